@@ -44,7 +44,7 @@ func init() {
 }
 
 // local edits are drawn more often than in c03
-var c15Ops = append(append([]string{}, histOps...), "graft", "merge", "insertidentical", "removesingle", "subtree", "clone", "graft", "insertidentical", "removesingle", "reroot")
+var c15Ops = append(append([]string{}, histOps...), "insertidentical1", "insertidentical1", "graft", "merge", "insertidentical", "removesingle", "subtree", "clone", "graft", "insertidentical", "removesingle", "reroot")
 
 // snapshot of everything observable through the API
 func snapshot(t *tree.Tree) string {
@@ -110,6 +110,29 @@ func checkLocalEdit(o *Outcome, op, desc, before, after string, hist []string, r
 	if op == "subtree" {
 		wantRemoved = removed // a subtree keeps a subset of the tips; which one is the argument
 	}
+	// a tip replaced by a tree that has a tip of the same name is neither added nor removed
+	both := map[string]bool{}
+	for _, a := range wantAdded {
+		for _, r := range wantRemoved {
+			if a == r {
+				both[a] = true
+			}
+		}
+	}
+	if len(both) > 0 {
+		var wa, wr []string
+		for _, a := range wantAdded {
+			if !both[a] {
+				wa = append(wa, a)
+			}
+		}
+		for _, r := range wantRemoved {
+			if !both[r] {
+				wr = append(wr, r)
+			}
+		}
+		wantAdded, wantRemoved = wa, wr
+	}
 	sort.Strings(wantAdded)
 	sort.Strings(wantRemoved)
 	if strings.Join(added, ",") != strings.Join(wantAdded, ",") || strings.Join(removed, ",") != strings.Join(wantRemoved, ",") {
@@ -141,8 +164,8 @@ func checkLocalEdit(o *Outcome, op, desc, before, after string, hist []string, r
 	bd, ad := bm.Dist(), am.Dist()
 	for _, k := range sortedKeys(bd) {
 		ab := strings.Split(k, "|")
-		if at[ab[0]] == 0 || at[ab[1]] == 0 {
-			continue
+		if at[ab[0]] == 0 || at[ab[1]] == 0 || both[ab[0]] || both[ab[1]] {
+			continue // (a tip replaced by a tree with a tip of the same name is a new tip)
 		}
 		if d, ok := ad[k]; !ok || math.Abs(d-bd[k]) > 1e-9 {
 			o.Fail("local-edit:distance:"+op, "path length between pre-existing tips %s changed from %v to %v\n%s", k, bd[k], d, ctx)
@@ -165,7 +188,7 @@ func checkLocalEdit(o *Outcome, op, desc, before, after string, hist []string, r
 	}
 }
 
-var localOps = map[string]bool{"graft": true, "merge": true, "insertidentical": true, "removesingle": true, "subtree": true, "clone": true}
+var localOps = map[string]bool{"graft": true, "merge": true, "insertidentical": true, "insertidentical1": true, "removesingle": true, "subtree": true, "clone": true}
 
 func execC15(t *testing.T, cc any, o *Outcome) {
 	c := cc.(*HistCase)
@@ -233,6 +256,14 @@ func execC15(t *testing.T, cc any, o *Outcome) {
 				who, c.Copy, strings.Join(hist, "\n  "), beforeText, afterText, beforeSnap, afterSnap)
 			return
 		}
+		if err != nil && parties[who].ranFresh && parties[who].targetExisted && uniqueNodeNames(parties[who].t) {
+			if _, isPanic := err.(opPanic); !isPanic {
+				// all graft positions / all groups with one existing member: the tip exists (it was taken from a traversal) and the
+				// function that made the previous edit keeps the tip index current, so the request cannot be refused
+				o.Fail("local-edit:refused:"+op.Op, "party %d: %s is refused (%v) although the tip it names is a tip of the tree\nhistory:\n  %s\ntree %s", who, desc, err, strings.Join(hist, "\n  "), safeText(parties[who].t))
+				return
+			}
+		}
 		if err != nil {
 			o.Probe("op-failed")
 			if !guard(o, "restore", func() { parties[who].t = mustParse(parties[who].text) }) {
@@ -271,4 +302,19 @@ func execC15(t *testing.T, cc any, o *Outcome) {
 	}
 	o.Nontrivial = (nstruct[0] > 0 && nstruct[1] > 0) || nlocal > 0
 	o.Key = c.Copy + "/" + strings.Join(kinds, ",")
+}
+
+// uniqueNodeNames: no two nodes (tips or inner nodes) carry the same non-empty name (name-keyed functions refuse such trees).
+func uniqueNodeNames(t *tree.Tree) bool {
+	seen := map[string]bool{}
+	for _, n := range t.Nodes() {
+		if n.Name() == "" {
+			continue
+		}
+		if seen[n.Name()] {
+			return false
+		}
+		seen[n.Name()] = true
+	}
+	return true
 }
